@@ -78,12 +78,19 @@ def main():
             # reference: one file after the other, in the given order, same pass structure as one pass
             ret = False
             for f in files:
-                ret = bool(mainmod.format_file(f, frozenset(), job.get("safe", False))) or ret
+                try:
+                    ret = bool(mainmod.format_file(f, frozenset(), job.get("safe", False))) or ret
+                except Exception as e:  # noqa
+                    ret = "EXC:" + type(e).__name__
+                    break
         else:
-            ret = mainmod.format_files(files, n_cores=job["n_cores"], max_passes=job["max_passes"],
-                                       safe=job.get("safe", False))
-        out["ret"] = bool(ret)
-        out["tree"] = {str(p.relative_to(root)): p.read_text() for p in sorted(root.rglob("*.py"))}
+            try:
+                ret = mainmod.format_files(files, n_cores=job["n_cores"], max_passes=job["max_passes"],
+                                           safe=job.get("safe", False))
+            except Exception as e:  # noqa   (one file that cannot be formatted: what happened to the OTHER files?)
+                ret = "EXC:" + type(e).__name__
+        out["ret"] = ret if isinstance(ret, str) else bool(ret)
+        out["tree"] = {str(p.relative_to(root)): p.read_bytes().decode("latin-1") for p in sorted(root.rglob("*.py"))}
     with open(sys.argv[2], "w") as fh:
         json.dump(out, fh)
 
